@@ -141,6 +141,17 @@ pub fn commit_graph() {
     }
     ra.reload().expect("reload");
     assert!(ra.get_anchors() == h.a.m.get_anchors(), "heads after reload differ");
+    // re-doing, after a time travel, exactly the edit of a block that is already stored: the commit must behave
+    // like any other (one head: the block; its parents the previous heads)
+    let first: BTreeSet<DeltaId> = [h.ids[0].clone()].into_iter().collect();
+    ra.reload_until(&first).expect("reload_until first block");
+    ra.update(doc_with(&["a", "b"], &["x".to_string(), "y".to_string()], "t")).expect("redo update");
+    let info1 = h.a.m.get_delta(&h.ids[1]).unwrap().unwrap().info;
+    let c = ra.commit(info1).expect("redo commit").expect("redo produced no block");
+    assert!(ra.get_anchors() == c, "after re-doing a stored block the heads are not the committed block");
+    let d = ra.get_delta(c.iter().next().unwrap()).unwrap().unwrap();
+    assert!(d.parents.clone().unwrap_or_default() == first, "re-done block has wrong parents");
+    check_heads(&ra, &h.ids);
     sym::reach(1);
 }
 
@@ -191,5 +202,51 @@ pub fn time_travel() {
         assert!(h.a.m.get_value(&id, Some(&r)).expect("historical value") == v, "historical value changed");
         assert!(h.a.m.get_parent_revision(&id, &r).expect("historical parent") == p, "historical parent changed");
     }
+    sym::reach(1);
+}
+
+/// C14 on a deeper history of `rounds` diamonds: in every round both replicas edit and commit, then exchange in both
+/// directions. Every recorded head set of replica a is travelled to. params: [rounds]
+pub fn time_travel_rounds() {
+    let rounds = sym::param(0) as usize;
+    let a = Rep::new();
+    a.m.update(doc_with(&["a", "b"], &["x".to_string(), "y".to_string()], "t")).unwrap();
+    a.m.commit(None).unwrap();
+    let mut a = a;
+    let mut b = Rep::new();
+    b.pull(&a);
+    let mut points: Vec<(BTreeSet<DeltaId>, String)> = vec![(a.m.get_anchors(), state(&a.m))];
+    for r in 0..rounds {
+        let va = format!("p{}", r);
+        let vb = format!("q{}", r);
+        a.m.update(doc_with(&["a", "b"], &[va, "y".to_string()], "t")).unwrap();
+        a.m.commit(None).unwrap();
+        points.push((a.m.get_anchors(), state(&a.m)));
+        b.m.update(doc_with(&["a", "b"], &["x".to_string(), vb], "t")).unwrap();
+        b.m.commit(None).unwrap();
+        let a0 = a.snapshot();
+        a.pull(&b);
+        b.pull(&a0);
+        points.push((a.m.get_anchors(), state(&a.m)));
+    }
+    let latest = state(&a.m);
+    let i = sym::choose(points.len());
+    let (heads, recorded) = points[i].clone();
+    a.m.reload_until(&heads).expect("reload_until");
+    assert!(a.m.get_anchors() == heads, "heads after time travel are not the chosen blocks");
+    let st = state(&a.m);
+    if st != recorded {
+        sym::debug_str("travelled", &st);
+        sym::debug_str("recorded ", &recorded);
+    }
+    assert!(st == recorded, "time travel does not show the state the replica had at those heads");
+    for (id, r, p, v) in revisions_of(&a.m) {
+        assert!(a.m.get_value(&id, Some(&r)).expect("value") == v, "historical value not retrievable");
+        assert!(a.m.get_parent_revision(&id, &r).expect("parent") == p, "historical parent not retrievable");
+    }
+    let fresh = Melda::new_until(a.ad.clone(), &heads).expect("new_until");
+    assert!(state(&fresh) == recorded, "new_until differs from the recorded state");
+    a.m.reload().expect("reload");
+    assert!(state(&a.m) == latest, "plain reload after time travel does not return to the latest state");
     sym::reach(1);
 }
